@@ -36,18 +36,22 @@ DESIGN_REF = "DESIGN.md §5 C42, §3.3"
 
 VP_OBJ = 160
 H = "C42_tagging.c"
-LOOPS = ["vp_bytes.0", "vp_evb_byte.0", "vp_evb_check.0", "vp_evb_nchains.0", "exp_bytes.0", "tagref_enc_tag.0", "tagref_nibbles.0", "tagref_enc_int.0", "tagref_enc_int.1",
-         "tagref_dec_tag.0", "tagref_dec_int.0", "harness_roundtrip.0", "harness_roundtrip.1", "harness_decode.0", "harness_decode.1",
-         "evtag_encode_tag.0", "encode_int_internal.0", "encode_int64_internal.0", "decode_tag_internal.0", "decode_int_internal.0", "decode_int64_internal.0",
-         "strlen.0"]
+# loop bounds: exact iteration bound + 1 (value loops terminate by arithmetic the symex simplifier cannot see, so a generous bound is
+# unwound in full: keep them tight; unwinding assertions are on, a too small bound is reported)
+LOOPS = {"vp_bytes.0": 17, "vp_evb_byte.0": 8, "vp_evb_check.0": 8, "vp_evb_nchains.0": 8, "exp_bytes.0": 6, "tagref_enc_tag.0": 6, "tagref_nibbles.0": 17,
+         "tagref_enc_int.0": 10, "tagref_enc_int.1": 17, "tagref_dec_tag.0": 6, "tagref_dec_int.0": 17, "harness_roundtrip.0": 6, "harness_roundtrip.1": 6,
+         "harness_decode.0": 17, "harness_decode.1": 17, "evtag_encode_tag.0": 6, "encode_int_internal.0": 9, "encode_int64_internal.0": 17,
+         "decode_tag_internal.0": 7, "decode_int_internal.0": 9, "decode_int64_internal.0": 17, "strlen.0": 6}
 
-def _ob(name, entry, defs, desc, ndebug=False, timeout=600, mem_gb=5, **kw):
+def _ob(name, entry, defs, desc, copy=12, ndebug=False, timeout=600, mem_gb=5, **kw):
     ob = dict(name=name + ("__ndebug" if ndebug else ""), harness=H, entry=entry,
               defines=["LIBEVENT_VERIF_MIN_BUFFER_SIZE=64", "VP_OBJ=%d" % VP_OBJ] + defs,
               desc=desc + (" (NDEBUG build)" if ndebug else ""), unwind=8,
               unwindset=["evbuffer_chain_free:1", "evbuffer_decref_and_unlock_:1", "evbuffer_file_segment_free:1"] +
-                        ["%s:%d" % (l, 42) for l in LOOPS] + ["%s:%d" % (l, 42) for l in _c12.COPY_LOOPS],
+                        ["%s:%d" % (l, n) for l, n in sorted(LOOPS.items())] + ["%s:%d" % (l, copy) for l in _c12.COPY_LOOPS],
               cbmc=["--max-field-sensitivity-array-size", str(VP_OBJ), "--object-bits", "10"],
+              instrument=[["--replace-calls", "evbuffer_decref_and_unlock_:vp_cut_decref"],
+                          ["--replace-calls", "evbuffer_file_segment_free:vp_cut_segfree"]],
               timeout=timeout, mem_gb=mem_gb, ndebug=ndebug)
     ob.update(kw)
     return ob
@@ -74,11 +78,11 @@ def obligations(tier):
     for k, d in RTS:
         for pre in pres:
             if pre and k in ("WRONGTAG",): continue
-            obs.append(_ob("rt_%s_pre%d" % (k.lower(), pre), "harness_roundtrip", ["RT=RT_" + k, "VP_PRE=%d" % pre], "round trip: %s; item at offset %d" % (d, pre)))
+            obs.append(_ob("rt_%s_pre%d" % (k.lower(), pre), "harness_roundtrip", ["RT=RT_" + k, "VP_PRE=%d" % pre], "round trip: %s; item at offset %d" % (d, pre), copy=max(pre, 10) + 2))
     L = 10 if tier == "quick" else 12
     for k in DECS:
         defs = ["DEC=DEC_" + k, "VP_L=%d" % L]
         if k in TAG_FIRST: defs.append("KF_EXCLUDE_TAG6")
         obs.append(_ob("dec_%s" % k.lower(), "harness_decode", defs, "decoder %s on arbitrary bytes, length <= %d, every 2-chain split%s" %
-                       (k, L, " (excluding the KF-C42-tag-overread inputs)" if k in TAG_FIRST else "")))
+                       (k, L, " (excluding the KF-C42-tag-overread inputs)" if k in TAG_FIRST else ""), copy=L + 2))
     return obs
